@@ -18,6 +18,7 @@ import Ajson.Proofs.CloneFrame
 import Ajson.Proofs.Acyclic
 import Ajson.Proofs.Frame
 import Ajson.Proofs.CloneIso
+import Ajson.Proofs.Sides
 import Ajson.Model.Decode
 import Ajson.Spec.WF
 
@@ -89,6 +90,26 @@ theorem C14_editing_the_copy_never_changes_the_original {h : Heap} (hs : Struct 
   have sp := split_clone hs n (clone_hypothesis hs ha n hn)
   exact frames_of_region _ a v m (Nat.ne_of_lt (Nat.lt_of_lt_of_le hm hac)) (Nat.ne_of_lt (Nat.lt_of_lt_of_le hm hvc))
     (sp.region_new a hac m hm) (sp.region_new v hvc m hm).2.2
+
+/-- **mutating either side afterwards never changes the other — for whole histories**: after `Clone()`, ANY finite sequence of edits
+(`Edit`: the scalar setters, DeleteKey, DeleteIndex, Delete, AppendArray of one node) addressed to nodes that existed before the call
+leaves the whole record of every node of the copy as it is … -/
+theorem C14_any_history_on_the_original {h : Heap} (hs : Struct h) (ha : Acyc h) (n : Nat) (hn : n < h.size) (es : List Edit)
+    (hnames : ∀ e ∈ es, ∀ x ∈ e.names, x < h.size) (m : Nat) (hm : h.size ≤ m) :
+    (es.foldl Edit.run (h.clone n).1).get m = (h.clone n).1.get m := by
+  have sp := split_clone hs n (clone_hypothesis hs ha n hn)
+  refine history_side es _ (fun x => x < h.size) ?_ ?_ hnames m (Nat.not_lt.mpr hm)
+  · exact fun x hx => ⟨fun q hq => sp.oldPar x hx q hq, fun y hy => sp.oldKid x hx y hy⟩
+  · exact fun x hx => ⟨fun q hq => Nat.not_lt.mpr (sp.newPar x (Nat.not_lt.mp hx) q hq), fun y hy => Nat.not_lt.mpr (sp.newKid x (Nat.not_lt.mp hx) y hy)⟩
+
+/-- … and any history of edits addressed to nodes of the copy leaves every older record as it is -/
+theorem C14_any_history_on_the_copy {h : Heap} (hs : Struct h) (ha : Acyc h) (n : Nat) (hn : n < h.size) (es : List Edit)
+    (hnames : ∀ e ∈ es, ∀ x ∈ e.names, h.size ≤ x) (m : Nat) (hm : m < h.size) :
+    (es.foldl Edit.run (h.clone n).1).get m = (h.clone n).1.get m := by
+  have sp := split_clone hs n (clone_hypothesis hs ha n hn)
+  refine history_side es _ (fun x => h.size ≤ x) ?_ ?_ hnames m (Nat.not_le.mpr hm)
+  · exact fun x hx => ⟨fun q hq => sp.newPar x hx q hq, fun y hy => sp.newKid x hx y hy⟩
+  · exact fun x hx => ⟨fun q hq => Nat.not_le.mpr (sp.oldPar x (Nat.not_le.mp hx) q hq), fun y hy => Nat.not_le.mpr (sp.oldKid x (Nat.not_le.mp hx) y hy)⟩
 
 /-- the hypothesis is satisfiable: a two-level tree -/
 example : ∃ h : Heap, SubTree h h.size 0 h.size ∧ 1 < h.size :=
